@@ -275,3 +275,27 @@ Definition reload (fs : fsys) : replay_res :=
   | None => RpOk empty_version
   | Some id => match man_get fs id with None => RpOk empty_version | Some bs => replay_manifest bs end
   end.
+
+(** Verify + Open on an existing directory, as a manager that goes on logging
+    (initNextFileID: the id named by CURRENT + 1; Verify removes CURRENT.tmp and
+    truncates a torn tail).  [None]: Verify or replay fails. *)
+Definition open_mgr (thr : N) (fs : fsys) : option mgr :=
+  match f_current fs with
+  | None => Some {| m_fs := set_current (man_set (set_tmp fs None) 1 []) 1; m_cur := 1; m_next := 2;
+                    m_ver := empty_version; m_thr := thr |}
+  | Some id =>
+      match man_get fs id with
+      | None => Some {| m_fs := set_current (man_set (set_tmp fs None) 1 []) 1; m_cur := 1; m_next := 2;
+                        m_ver := empty_version; m_thr := thr |}
+      | Some bs =>
+          match verify_bytes bs with
+          | None => None
+          | Some bs' =>
+              match replay_manifest bs' with
+              | RpOk v => Some {| m_fs := man_set (set_tmp fs None) id bs'; m_cur := id; m_next := id + 1;
+                                  m_ver := v; m_thr := thr |}
+              | _ => None
+              end
+          end
+      end
+  end.
